@@ -1296,7 +1296,10 @@ pub fn c06(em: &mut Emit, thorough: bool, seed: u64) {
         let len = *rng.pick(&lens);
         let mut e = ent(len);
         let nh = rng.usize(5);
-        let names = if i % 5 == 4 {
+        let multipart_entity = i % 11 == 10;
+        let names = if multipart_entity {
+            ["content-type", "x-ent-a", "x-ent-b", "x-ent-a", "content-language"]
+        } else if i % 5 == 4 {
             ["content-length", "content-range", "x-ent-b", "etag", "content-type"]
         } else {
             ["x-ent-a", "content-type", "x-ent-b", "x-ent-a", "content-language"]
@@ -1306,6 +1309,11 @@ pub fn c06(em: &mut Emit, thorough: bool, seed: u64) {
                 let vlen = *rng.pick(&[0usize, 1, 7, 60, 300]);
                 // every third value carries obs-text (bytes that are not UTF-8), as a Latin-1
                 // file name in Content-Disposition would
+                if multipart_entity && k == 0 {
+                    // (an entity that is itself a multipart document, with the very boundary
+                    // string `serve` uses, or its quoted form)
+                    return (names[k].to_string(), if i % 2 == 0 { b"multipart/mixed; boundary=B".to_vec() } else { b"multipart/byteranges; boundary=\"B\"".to_vec() });
+                }
                 (
                     names[k].to_string(),
                     (0..vlen)
@@ -1677,6 +1685,19 @@ fn empty_flood_cases(em: &mut Emit) {
 pub fn c07(em: &mut Emit, thorough: bool, seed: u64) {
     panicking_stream_cases(em);
     empty_flood_cases(em);
+    // an entity of no bytes at all: its stream can still misbehave (a byte too many, an error,
+    // an empty chunk and then an error), and an honest one ends at once
+    for (scripts, honest) in [
+        (vec![vec![Ev::Chunk(vec![7])]], false),
+        (vec![vec![Ev::Err]], false),
+        (vec![vec![Ev::Chunk(vec![]), Ev::Err]], false),
+        (vec![vec![Ev::Pending, Ev::Chunk(vec![1, 2])]], false),
+        (vec![vec![]], true),
+        (vec![vec![Ev::Chunk(vec![])]], true),
+    ] {
+        let c = BodyCase { q: HReq::get(), e: ent(0), scripts, polls: 6, honest, shape: "200-empty".into() };
+        run_case(em, &c, &pred_c07);
+    }
     let mut rng = Rng::new(seed ^ 0xC07);
     for c in fault_cases(&mut rng, thorough) {
         run_case(em, &c, &pred_c07);
